@@ -390,7 +390,8 @@ func c17Trie(c *Ctx, cdb *store.ChainDatabase) {
 			tr.SetCacheLimit(limit)
 			c.Count("trie:cachelimit=small")
 		} else {
-			tr.SetCacheLimit(120)
+			limit = 120
+			tr.SetCacheLimit(limit)
 			c.Count("trie:cachelimit=120")
 		}
 		c.Op("tnew", "ok")
